@@ -316,7 +316,12 @@ func c02Build(seed uint64, idx int, tier string) *c02Case {
 		if c.mode == 1 && r.Chance(1, 2) {
 			c.argv = append(c.argv, c02Token(r, c.kind, pay, 14))
 		} else if r.Bool() {
-			c.argv = append(c.argv, "--multi="+c02Token(r, c.kind, pay, []int{0, 0, 0, 10, 13, 3}[r.Intn(6)]))
+			at := c02Token(r, c.kind, pay, []int{0, 0, 0, 10, 13, 3}[r.Intn(6)])
+			if c.kind == KInts && r.Chance(1, 6) {
+				a := -r.Range(1, 30) // signed bounds are fine behind `=` (detached, `-3..-1` would look like an option)
+				at = fmt.Sprintf("%d..%d", a, a+r.Range(1, 6))
+			}
+			c.argv = append(c.argv, "--multi="+at)
 			c.attached = true
 		} else {
 			c.argv = append(c.argv, "--multi")
